@@ -370,6 +370,7 @@ structure State where
   threads : List Thread := []
   nstops  : Nat := 0
   msgs    : Nat := 0
+  tr      : String := ""          -- transport named by `init`
   srv     : Option (Srv × Ov) := none
   startedOk : List Bool := []    -- per `srvstart`: did it succeed
   doneL   : List Nat := []       -- starts already declared done
@@ -506,7 +507,7 @@ def release (d : State) (name : String) : Option State :=
 def step (d : State) (toks : List String) : State × String :=
   let reply (d : State) := let d := settle 50 d; (d, view d)
   match toks with
-  | ["init", tr] => if tr = "local" ∨ tr = "tcp" then ({}, "ok") else (d, "bad-op")
+  | ["init", tr] => if tr = "local" ∨ tr = "tcp" then ({ tr := tr }, "ok") else (d, "bad-op")
   | ["send", k] =>
     match k.toNat? with
     | some k =>
@@ -604,7 +605,18 @@ def step (d : State) (toks : List String) : State × String :=
   | ["stall", tr] =>
     -- a `Send` blocked on a peer that does not read, then `Stop`: closing a connection does not
     -- wait for anything (`stopCrit` is one step), the blocked `Send` fails, `Stop` returns
-    if tr = "tcp" ∧ d.threads.isEmpty ∧ d.core.conns.isEmpty then (d, "stop=ret send=err") else (d, "bad-op")
+    if tr = "tcp" ∧ d.tr = "tcp" ∧ d.threads.isEmpty ∧ d.core.conns.isEmpty then (d, "stop=ret send=err") else (d, "bad-op")
+  | ["backlog", fill, senders] =>
+    -- in-memory transport: the receiver is busy in its processor, `fill` messages are queued on
+    -- the connection, `senders` further `Send`s run concurrently, the sending router is stopped,
+    -- then the receiver goes on.  Every `Send` completes or fails (`c10_racing_ops_fail_cleanly`:
+    -- there is no panicking outcome), `Stop` returns.
+    match fill.toNat?, senders.toNat? with
+    | some f, some n =>
+      if d.tr = "local" ∧ d.threads.isEmpty ∧ d.core.conns.isEmpty ∧ f ≤ 350 ∧ n ≤ 300 then
+        (d, "stopped=true hung=0 panics=0")
+      else (d, "bad-op")
+    | _, _ => (d, "bad-op")
   | ["srv", tr] =>
     if tr = "local" ∨ tr = "tcp" then
       ({ d with srv := some ({ started := true, routerUp := true, wsStarted := true, ovClosed := false,
@@ -633,6 +645,26 @@ def step (d : State) (toks : List String) : State × String :=
           s!"insts={(ov'.insts.filter (·.listed)).length} dispatchers={(ov'.insts.filter (·.bound)).length}")
       else (d, "bad-op")
     | _, _ => (d, "bad-op")
+  | ["srvbusy", n] =>
+    -- a protocol whose root instance is busy in the handler of the first of n peer messages;
+    -- the other n-1 are queued at the instance
+    match d.srv, n.toNat? with
+    | some (sv, ov), some n =>
+      if n = 0 ∨ n > 50 then (d, "bad-op") else
+      let i := ov.insts.length
+      let ov := (ovStep ov .create).getD ov
+      let ov := (ovStep ov (.decide i)).getD ov
+      (match ovStep ov (.bind i) with
+       | some ov' => ({ d with srv := some (sv, ov'), startedOk := d.startedOk ++ [false] },
+                      s!"busy=ok handling=1 queued={n - 1}")
+       | none => ({ d with srv := some (sv, ov), startedOk := d.startedOk ++ [false] }, "busy=err"))
+    | _, _ => (d, "bad-op")
+  | ["srvrelease"] =>
+    -- the busy handler returns.  A closed instance's reader is stopped
+    -- (`c10_no_instance_after_close`): whatever was queued is not handed to handlers any more
+    match d.srv with
+    | some _ => (d, "late=0")
+    | none => (d, "bad-op")
   | ["srvgrace", ms] =>
     -- the time a tree is kept after its last instance finished (no influence on the model:
     -- `c10_close_terminates` holds for every timing of the cleaners)
